@@ -136,6 +136,7 @@ func (m *renomModel) Enabled() []string {
 		return nil
 	}
 	evs := append(m.tickEvents(), m.netEvents()...)
+	evs = append(evs, m.unsignalled()...)
 	if m.renoms < m.maxRenoms {
 		for _, p := range m.validPairsA() {
 			evs = append(evs, "renom:"+p)
@@ -183,6 +184,10 @@ func (m *renomModel) Apply(ev string) {
 			}
 		}
 		m.applyBasic(ev)
+	case "signal":
+		i, j := int(arg[0]-'0'), 0
+		fmt.Sscan(arg[2:], &j) //nolint:errcheck
+		m.signalOne(m.side[i], m.side[1-i], j)
 	default:
 		if !m.applyBasic(ev) {
 			panic("unknown event " + ev)
@@ -367,6 +372,9 @@ func checkC20(c *runCtx) {
 	specs = append(specs,
 		sp{"2x1, controlled side's check on the second pair still in flight, <=2 renominations, <=1 dup, depth<=8", renomCfg{pairCfg{KindsA: h2, KindsB: h1, PrioA: lowHigh, Ticks: 1, Dups: 1}, 2, 8, []string{"b0>a1:request"}}},
 		sp{"2x1, answer to the controlled side's check on the second pair still in flight, <=2 renominations, depth<=8", renomCfg{pairCfg{KindsA: h2, KindsB: h1, PrioA: lowHigh, Ticks: 1}, 2, 8, []string{"a1>b0:success response"}}},
+	)
+	specs = append(specs,
+		sp{"2x1, A's second candidate reaches B only later (peer-reflexive first), B's check on it still in flight, <=2 renominations, depth<=8", renomCfg{pairCfg{KindsA: h2, KindsB: h1, PrioA: lowHigh, Ticks: 1, HoldSignal: []string{"0:1"}}, 2, 8, []string{"b0>a1:request"}}},
 	)
 	specs = append(specs,
 		sp{"2x1, application generator that is not monotonic (2,1,3), <=2 renominations, <=1 dup, depth<=8", renomCfg{pairCfg{KindsA: h2, KindsB: h1, PrioA: lowHigh, Ticks: 1, Dups: 1, NomValues: []uint32{2, 1, 3}}, 2, 8, nil}},
